@@ -122,7 +122,11 @@ pub enum Symbol {
 }
 
 impl From<cst::IdentOrTerminalIdent> for Symbol {
-    fn from(ident: cst::IdentOrTerminalIdent) -> Self {
+    fn from(ident: cst::IdentOrTerminalIdent) -> /*@[*/(r: /*@]*/Self/*@[*/)/*@]*/
+        //@[ C17 Symbol::from: the grammar symbol a field refers to
+        ensures r == crate::vx_gram::sym_of(ident),
+        //@]
+    {
         match ident {
             cst::IdentOrTerminalIdent::Ident(ident) => Symbol::Nonterminal(ident.name),
             cst::IdentOrTerminalIdent::Terminal(ident) => Symbol::Terminal(ident.name),
